@@ -36,7 +36,7 @@ sys.path.insert(0, os.path.dirname(os.path.abspath(__file__)))
 import c2lean as C
 from c2lean import Unsupported, lname, walk
 
-SOURCES = ['lltdWire.c', 'lltdTlvOps.c', 'lltdAutomata.c']
+SOURCES = ['lltdWire.c', 'lltdTlvOps.c', 'lltdAutomata.c', 'lltdBlock.c']
 # translated when defined in one of SOURCES (or, for the inline helpers, in a header they include)
 HELPERS = ['lltd_bswap16', 'lltd_bswap32', 'lltd_is_little_endian', 'lltd_htons', 'lltd_ntohs', 'lltd_htonl', 'lltd_ntohl']
 WANTED = {
@@ -46,7 +46,10 @@ WANTED = {
                      'setEndOfPropertyTLV', 'setPhysicalMediumTLV', 'setIPv4TLV', 'setIPv6TLV', 'setLinkSpeedTLV',
                      'setWirelessTLV', 'setBSSIDTLV', 'setSSIDTLV', 'setWifiMaxRateTLV', 'setWifiRssiTLV', 'set80211MediumTLV'],
     'lltdAutomata.c': ['derive_session_event'],
+    'lltdBlock.c': ['mapper_matches', 'set_active_mapper'],
 }
+# structs DEFINED IN A .c FILE whose layout the probe needs: the probe includes that file (with generated stubs for the port functions)
+PRIVATE_RECORDS = {'lltd_iface_state': 'lltdBlock.c'}
 # calls answered by the ENVIRONMENT instead of being translated here (tools/c2lean.py translates them with structs by value):
 # name -> (size-of-result struct name).  The oracle gets the scalar arguments and, for a pointer argument, the bytes from that address on;
 # it returns NULL (`none`) or the object representation of the struct the returned pointer points to.
@@ -59,9 +62,10 @@ def q(t):
 
 class Layout:
     """sizeof / offsetof as the compiler computes them for the working tree's headers (probe compiled and run)"""
-    def __init__(self, repo, records, flags):
+    def __init__(self, repo, records, flags, private=(), stubs=()):
         core = os.path.join(repo, 'lltdResponder')
-        lines = ['#include <stdio.h>', '#include <stddef.h>', '#include <stdint.h>', '#include "lltdProtocol.h"', '#include "lltdAutomata.h"', 'int main(void){']
+        lines = ['#include <stdio.h>', '#include <stddef.h>', '#include <stdint.h>', '#include "lltdProtocol.h"', '#include "lltdAutomata.h"']
+        lines += ['#include "%s"' % f for f in private] + list(stubs) + ['int main(void){']
         for name, fields in sorted(records.items()):
             lines.append('printf("S %s %%zu\\n", sizeof(%s));' % (name, name))
             for f in fields:
@@ -71,7 +75,8 @@ class Layout:
         try:
             src = os.path.join(d, 'p.c')
             open(src, 'w').write('\n'.join(lines))
-            r = subprocess.run(['gcc', '-std=gnu11', '-w', '-I' + core, '-o', os.path.join(d, 'p'), src] + flags,
+            extra = [os.path.join(core, f) for f in ('lltdWire.c', 'lltdTlvOps.c', 'lltdAutomata.c')] if private else []
+            r = subprocess.run(['gcc', '-std=gnu11', '-w', '-D_GNU_SOURCE', '-I' + core, '-o', os.path.join(d, 'p'), src] + extra + flags,
                                stdout=subprocess.PIPE, stderr=subprocess.PIPE, text=True)
             if r.returncode != 0:
                 raise Unsupported('layout probe does not compile:\n' + r.stderr[-1500:])
@@ -936,7 +941,22 @@ class Translator:
         # only typedef'd records of lltdProtocol.h can be named in the probe
         hdr = open(os.path.join(self.repo, 'lltdResponder', 'lltdProtocol.h')).read() + open(os.path.join(self.repo, 'lltdResponder', 'lltdAutomata.h')).read()
         named = {k: v for k, v in recs.items() if re.search(r'\}\s*(__attribute__\s*\(\(.*?\)\)\s*)?%s\s*;' % re.escape(k), hdr)}
-        self.layout = Layout(self.repo, named, self.flags)
+        private = sorted(set(PRIVATE_RECORDS.values()))
+        for k, f in PRIVATE_RECORDS.items():
+            if k in self.records:
+                named[k] = self.records[k]
+        stubs = []
+        for nm, proto in sorted(self.protos.items()):
+            if nm.startswith('lltd_port_') and nm not in self.fns:
+                tq = q(proto['type'])
+                ret = tq.split('(')[0].strip()
+                params = [p for p in proto.get('inner', []) if p.get('kind') == 'ParmVarDecl']
+                ps = ', '.join('%s a%d' % (p['type']['qualType'].replace('[16]', '*').replace('[6]', '*'), i) if '[' not in p['type']['qualType'] else
+                               '%s a%d' % (re.sub(r'\[\d*\]', '*', p['type']['qualType']), i) for i, p in enumerate(params)) or 'void'
+                if proto.get('variadic') or '...' in tq:
+                    ps += ', ...'
+                stubs.append('%s %s(%s) { %s }' % (ret, nm, ps, '' if ret == 'void' else 'return (%s)0;' % ret))
+        self.layout = Layout(self.repo, named, self.flags, private, stubs)
         for key in list(self.field_kind):
             if self.field_kind[key] is not None:
                 self.field_kind[key] = C.kind_of(self.field_kind[key])
